@@ -63,7 +63,7 @@ class T2World(World):
     kind = "tt2"
 
     def __init__(self, sx, S, prefix="", rsv=(), oldlen=0, extra=16,
-                 old_lt_80=False, symbolic_window=None):
+                 old_lt_80=False, symbolic_window=None, terminator=None):
         self.sx = sx
         self.S = S
         phys = 16 + S + extra
@@ -118,7 +118,7 @@ class T2World(World):
             assert b not in R, "reserved range on the length field"
         vals = [b for b in range(vstart, end) if b not in R]
         self.old_positions = vals[:oldlen]
-        if oldlen < len(vals) and sx.pick("old_terminator", [1, 0]):
+        if oldlen < len(vals) and (sx.pick("old_terminator", [1, 0]) if terminator is None else terminator):
             mem[vals[oldlen]] = 0xFE
         valset = set(vals)
         for i in range(phys):
@@ -184,7 +184,7 @@ class T1World(World):
     kind = "tt1"
 
     def __init__(self, sx, hr, size, prefix="", rsv=(), oldlen=0, old_lt_80=False,
-                 exact=False, symbolic_window=None):
+                 exact=False, symbolic_window=None, terminator=None):
         self.sx = sx
         self.size = size
         phys = size
@@ -206,7 +206,8 @@ class T1World(World):
             frm, sz = rsv[ri]
             ri += 1
             encs = _ctl_encodings(frm)
-            pa, bo, e = sx.pick("enc%d" % ri, encs) if len(encs) > 1 else encs[0]
+            if not exact:
+                pa, bo, e = sx.pick("enc%d" % ri, encs) if len(encs) > 1 else encs[0]
             if exact:
                 # the vendor's standard layout, byte for byte
                 pa, bo, e = [x for x in encs if x[2] == 3][0]
@@ -246,7 +247,7 @@ class T1World(World):
             assert b not in R, "reserved range on the length field"
         vals = [b for b in range(vstart, end) if b not in R]
         self.old_positions = vals[:oldlen]
-        if oldlen < len(vals) and sx.pick("old_terminator", [1, 0]):
+        if oldlen < len(vals) and (sx.pick("old_terminator", [1, 0]) if terminator is None else terminator):
             mem[vals[oldlen]] = 0xFE
         valset = set(vals)
         for i in range(phys):
